@@ -432,12 +432,12 @@ class C05(Check):
         if env.mine(j):
             yield {"kind": "special", "what": "biglink600", "coder": "copy", "crc": True, "seed": "copy", "ops": [], "calls": ["getnames", "extractall_path"], "pw": "none",
                    "how": "path"}
-        yield from self.sweep(env, 1 << 20)
         # every seed, unmodified, through the size-limited writer
         for name in seed_names():
             j += 1
             if env.mine(j):
                 yield {"kind": "tree", "seed": name, "tree": "inner", "hdr": None, "ops": [], "calls": ["extractall_limited", "reset", "extractall_limited"], "pw": "right", "how": "stream" if j % 2 else "path"}
+        yield from self.sweep(env, 1 << 20)
         # explicit histories the property names: extract twice without reset, testzip after extractall, on every seed
         i = 0
         for name in seed_names():
